@@ -44,6 +44,8 @@ def units(tier, seed):
     for kern in ("NUTS", "HMC"):
         for diag in (True, False):
             cases = []
+            for key1, shp1 in (("zeta", (2,)), ("alpha", (2, 2)), ("mid", ())):
+                cases.append({"keys": [key1], "shapes": [list(shp1)]})  # a kernel that owns exactly one key
             for n in (2, 3):
                 for perm in itertools.permutations(KEYS, n):
                     shape_sets = [tuple(SHAPES[(i + s) % 3] for i in range(n)) for s in range(3)]
@@ -56,12 +58,12 @@ def units(tier, seed):
             us.append({"part": "direct", "kernel": kern, "diag": diag, "cases": cases})
     # engine
     cfgs = []
-    orders = [["zeta", "alpha"], ["alpha", "zeta"], ["zeta", "mid", "alpha"], ["mid", "alpha", "zeta"]]
+    orders = [["zeta", "alpha"], ["alpha", "zeta"], ["zeta", "mid", "alpha"], ["mid", "alpha", "zeta"], ["alpha"]]
     for kern in ("HMC", "NUTS"):
         for order in orders:
             for diag in (True, False):
                 for co in ("none", "rw", "hmc"):
-                    for slow in ("one", "two_same", "two_diff"):
+                    for slow in ("one", "two_same", "two_same_object", "two_diff"):
                         for th in (1, 2):
                             cfgs.append({"kernel": kern, "order": order, "diag": diag, "co": co, "slow": slow, "thinning": th})
     if tier == "quick":
@@ -75,6 +77,8 @@ def units(tier, seed):
                 or (unsorted and c["co"] == "none" and c["slow"] == "one" and c["thinning"] == 2 and len(c["order"]) == 3 and c["kernel"] == "HMC")
                 or (not unsorted and c["co"] == "hmc" and c["slow"] == "two_diff" and c["thinning"] == 1 and len(c["order"]) == 2 and c["kernel"] == "HMC")
             )
+            pick = pick or (c["order"] == ["alpha"] and c["kernel"] == "HMC" and c["co"] == "rw" and c["slow"] == "one" and c["thinning"] == 1) \
+                or (c["slow"] == "two_same_object" and c["co"] == "none" and c["thinning"] == 1 and c["order"] == ["zeta", "alpha"] and c["diag"])
             if pick:
                 keep.append(c)
         cfgs = keep
@@ -175,6 +179,8 @@ def run_direct(res, unit):
             "sorted": {k: own[k] for k in sorted(keys)},
             "reversed": {k: own[k] for k in reversed(keys)},
             "foreign": {"other": hist["other"], **{k: own[k] for k in keys}},
+            # another kernel's / tracked quantity's history is not finite: must not matter
+            "foreign-nonfinite": {**{k: own[k] for k in keys}, "other": np.where(np.arange(hist["other"].shape[0]) == 2, np.inf, hist["other"]).astype(np.float32)},
         }
         for lname, h in layouts.items():
             for etype in (EpochType.SLOW_ADAPTATION, EpochType.FAST_ADAPTATION):
@@ -248,6 +254,9 @@ def run_engine(res, unit):
         eps += [EpochConfig(EpochType.SLOW_ADAPTATION, 20, th, None)]
     elif cfg["slow"] == "two_same":
         eps += [EpochConfig(EpochType.SLOW_ADAPTATION, 20, th, None), EpochConfig(EpochType.SLOW_ADAPTATION, 20, th, None)]
+    elif cfg["slow"] == "two_same_object":
+        same = EpochConfig(EpochType.SLOW_ADAPTATION, 20, th, None)
+        eps += [same, same]  # the very same config object used twice
     else:
         eps += [EpochConfig(EpochType.SLOW_ADAPTATION, 20, th, None), EpochConfig(EpochType.SLOW_ADAPTATION, 30, 1, None)]
     eps += [EpochConfig(EpochType.FAST_ADAPTATION, 10, 1, None), EpochConfig(EpochType.POSTERIOR, 10, 1, None)]
